@@ -57,6 +57,8 @@ type caseD struct {
 	Nodes   []nodeD  `json:"nodes"`   // first listing
 	Perms   [][]int  `json:"perms"`   // further listings, as permutations of Nodes
 	Failing []string `json:"failing"` // hex addresses that deliver no proposal
+	// which listing is also given to the model (harness bookkeeping)
+	ModelListing int `json:"model_listing"`
 }
 
 var keys []base.Publickey
@@ -219,10 +221,26 @@ func runFlowRetry(c caseD, listing []nodeD) flowObs {
 	if refFirstFailing(c) {
 		pw = 120 * time.Millisecond
 	}
+	failing := map[string]bool{}
+	for _, f := range c.Failing {
+		failing[f] = true
+	}
 	var o flowObs
 	for try := 0; try < 4; try++ {
 		o = runFlow(c, listing, pw)
 		if o.Err == "" {
+			// a live node that was passed over: either a scheduling delay made it miss the short deadline
+			// or the selector really skipped it; decide with the long deadline
+			skipped := false
+			for k := 0; k+1 < len(o.Sel); k++ {
+				if !failing[o.Sel[k].Out] {
+					skipped = true
+				}
+			}
+			if skipped && pw < 5*time.Second {
+				pw = 5 * time.Second
+				continue
+			}
 			return o
 		}
 		pw *= 4
@@ -279,13 +297,27 @@ func genNodes(r *vh.Rand, n int) []nodeD {
 			continue
 		}
 		seen[d.Addr] = true
-		d.Key = r.Intn(len(keys))
 		ds = append(ds, d)
+	}
+	for i, k := range r.Perm(len(keys))[:n] { // distinct keys within a suffrage
+		ds[i].Key = k
 	}
 	return ds
 }
 
-func genSize(r *vh.Rand) int {
+func genSize(r *vh.Rand, small bool) int {
+	if small { // cases also evaluated by the Coq model: keep the .v text small
+		switch r.Intn(10) {
+		case 0:
+			return 1
+		case 1:
+			return 2
+		case 9:
+			return r.Range(9, 20)
+		default:
+			return r.Range(3, 8)
+		}
+	}
 	switch r.Intn(10) {
 	case 0:
 		return 1
@@ -376,7 +408,7 @@ func permute(ds []nodeD, p []int) []nodeD {
 func coqNodes(ds []nodeD) string {
 	items := make([]string, len(ds))
 	for i, d := range ds {
-		items[i] = vh.Tuple("\""+d.Addr+"\"", vh.N(uint64(d.Key)))
+		items[i] = "\"" + d.Addr + "\""
 	}
 	return vh.List(items)
 }
@@ -404,7 +436,12 @@ func findNode(ds []nodeD, addr string) (nodeD, bool) {
 	return nodeD{}, false
 }
 
-func evalFlow(c caseD, res *vh.Result, cases *vh.Cases, mu *sync.Mutex, addModel bool) {
+type modelCase struct {
+	term string
+	desc any
+}
+
+func evalFlow(c caseD, res *vh.Result, slot *modelCase, mu *sync.Mutex, addModel bool) {
 	listings := [][]nodeD{c.Nodes}
 	for _, p := range c.Perms {
 		listings = append(listings, permute(c.Nodes, p))
@@ -463,8 +500,8 @@ func evalFlow(c caseD, res *vh.Result, cases *vh.Cases, mu *sync.Mutex, addModel
 	}
 	if addModel {
 		for i, o := range obs {
-			if i > 1 {
-				break
+			if i != c.ModelListing%len(obs) {
+				continue
 			}
 			var asked []nodeD
 			if len(c.Nodes) == 1 {
@@ -476,7 +513,7 @@ func evalFlow(c caseD, res *vh.Result, cases *vh.Cases, mu *sync.Mutex, addModel
 					asked = append(asked, d)
 				}
 			}
-			cases.Add(coqCase(c, listings[i], asked), map[string]any{"case": c, "listing": i, "selected": outs(o.Sel), "final": o.Final})
+			*slot = modelCase{coqCase(c, listings[i], asked), map[string]any{"case": c, "listing": i, "selected": outs(o.Sel), "final": o.Final}}
 		}
 	}
 	res.Sample(map[string]any{"n": len(c.Nodes), "height": c.Height, "round": c.Round, "failing": len(c.Failing), "selected": outs(obs[0].Sel), "final": obs[0].Final})
@@ -522,7 +559,12 @@ func bucket(n int) string {
 }
 
 // bare selector on the list as given (no sorting): model correspondence + membership + repeatability
-func evalBare(c caseD, res *vh.Result, cases *vh.Cases) {
+func evalBare(c caseD, res *vh.Result, cases *vh.Cases, addModel bool) {
+	defer func() {
+		if r := recover(); r != nil {
+			res.Fail("select-panic", fmt.Sprintf("BlockBasedProposerSelector.Select panics on %d nodes: %v", len(c.Nodes), r), c)
+		}
+	}()
 	nodes := mkNodes(c.Nodes)
 	prev, _ := hex.DecodeString(c.Prev)
 	sel := isaac.NewBlockBasedProposerSelector()
@@ -548,7 +590,9 @@ func evalBare(c caseD, res *vh.Result, cases *vh.Cases) {
 		res.Fail("perm-variant", fmt.Sprintf("Select twice on the same input: %q then %q", a1, a2), c)
 		return
 	}
-	cases.Add(coqCase(c, c.Nodes, []nodeD{d}), map[string]any{"case": c, "selected": a1})
+	if addModel {
+		cases.Add(coqCase(c, c.Nodes, []nodeD{d}), map[string]any{"case": c, "selected": a1})
+	}
 }
 
 func main() {
@@ -578,16 +622,17 @@ func main() {
 		if c.Flow {
 			flows = append(flows, c)
 		} else {
-			evalBare(c, res, cases)
+			evalBare(c, res, cases, true)
 		}
 	}
 	// corpus: fixed awkward cases
 	flows = append(flows, corpus()...)
 
 	nflow := o.Pick(700, 12000)
+	modelFlow := o.Pick(400, 5000) // number of flow cases also given to the model (one listing each)
 	for i := 0; i < nflow; i++ {
-		n := genSize(r)
-		c := caseD{Flow: true, Nodes: genNodes(r, n)}
+		n := genSize(r, i < modelFlow)
+		c := caseD{Flow: true, Nodes: genNodes(r, n), ModelListing: i}
 		c.Height, c.Round = genPoint(r, false)
 		c.Prev = genPrev(r, r.Chance(1, 4))
 		for k := r.Range(1, 2); k > 0; k-- {
@@ -606,9 +651,10 @@ func main() {
 		}
 		flows = append(flows, c)
 	}
-	modelFlow := o.Pick(500, 6000) // number of flow cases also given to the model (2 listings each)
+	modelFlow += len(flows) - nflow // corpus and replay cases too
 	var mu sync.Mutex
 	var wg sync.WaitGroup
+	slots := make([]modelCase, len(flows))
 	sem := make(chan struct{}, 256)
 	for i := range flows {
 		wg.Add(1)
@@ -616,18 +662,24 @@ func main() {
 		go func(i int) {
 			defer wg.Done()
 			defer func() { <-sem }()
-			evalFlow(flows[i], res, cases, &mu, i < modelFlow)
+			evalFlow(flows[i], res, &slots[i], &mu, i < modelFlow)
 		}(i)
 	}
 	wg.Wait()
+	for _, sl := range slots {
+		if sl.term != "" {
+			cases.Add(sl.term, sl.desc)
+		}
+	}
 
 	nbare := o.Pick(1500, 40000)
+	modelBare := o.Pick(300, 4000)
 	for i := 0; i < nbare; i++ {
-		n := genSize(r)
+		n := genSize(r, i < modelBare)
 		c := caseD{Nodes: genNodes(r, n)}
 		c.Height, c.Round = genPoint(r, true)
 		c.Prev = genPrev(r, true)
-		evalBare(c, res, cases)
+		evalBare(c, res, cases, i < modelBare)
 	}
 	res.ModelCases = cases.Len()
 	if err := cases.Write(o.Out); err != nil {
